@@ -354,6 +354,10 @@ def gen_run(seed: int, run: int, reqs: list[dict], n_meas: int) -> dict:
     companions = {"fx::c14::implicit_fn_a": "fx::c14::implicit_fn_b", "fx::c14::implicit_fn_b": "fx::c14::implicit_fn_a", "fx::c14::fn_kw": "fx::c14::flat", "fx::c14::gather_const_idx": "fx::c14::gather_const_idx"}
     by_pid = {q["pid"]: q for q in reqs if not q.get("over") and q.get("mut") is None}
     forced = [by_pid[p_] for p_ in r.sample(sorted(companions), 2) if p_ in by_pid]
+    # programs that reach multi-member node sets in the optimizer (only 14 of 1626 registry programs do):
+    # every run measures two of them, so the set-order / object-hash schedule always has something to bite on
+    node_set_sensitive = [p_ for p_ in ("fx::c14::resconv_nchw", "fx::c14::chanattn_nchw", "fx::c14::transpose_forest", "fx::c14::reshape_chain", "fx::c14::resconv") if p_ in by_pid]
+    forced += [by_pid[p_] for p_ in r.sample(node_set_sensitive, min(2, len(node_set_sensitive)))]
     for q in forced:
         if q not in picked:
             picked.insert(r.randrange(len(picked) + 1), q)
